@@ -73,14 +73,14 @@ def gen_case(g, prop):
             tgt = T.gen_dir(g, 2, max_depth=3, want_cmake=g.random() < 0.8)
             if st['follow']: ch.append(dict(name=nm, children=tgt, dirlink=True))
             else: hidden.append(dict(rel=rel, name=nm, children=tgt))
-    inp = dict(kind='dir', name=dname, children=children, spelled=g.choice(['abs', 'rel', 'dot']) if prop in ('C12', 'C17') else 'abs')
+    inp = dict(kind='dir', name=dname, children=children, spelled=g.choice(['abs', 'rel', 'dot', 'updir']) if prop in ('C12', 'C17', 'C14') else 'abs')
     if hidden: inp['hidden_links'] = hidden
     if prop in ('C12', 'C18', 'C17') and g.random() < 0.2:
         f = g.choice(T.NAMES + (['', ''] if prop in ('C17', 'C12') else [])) + g.choice(['.cmake', '.CMake', '.cmake', '.txt'])     # '' : a file named just `.cmake`
         if prop == 'C17' and g.random() < 0.35: f = g.choice(['.cmake', '.CMake'])      # empty title and module name: nothing may stand in for them
         inp = dict(kind='file', name=f, content=T.file_content(g, f), spelled=g.choice(['abs', 'rel']))
         if output == 'nested': output = 'abs'
-    if inp.get('spelled') == 'dot' and output == 'rel': output = 'abs'   # a relative output would resolve against the input directory
+    if inp.get('spelled') in ('dot', 'updir') and output == 'rel': output = 'abs'   # a relative output would resolve against the input directory
     case = dict(inputs=[inp], settings=st, patterns=pats, output=output)
     if prop == 'C12' and inp['kind'] == 'dir' and g.random() < 0.3:
         # an explicit @module name spelled exactly like the module name (or title) CMinx would derive anyway
